@@ -3,9 +3,11 @@
 //! executor histories (with is_idle / queue-length observers), single-worker execution order with the counters;
 //! FiberPool::spawn histories (semaphore), parallel_map / parallel_for_each / parallel_reduce (result, execution order,
 //! call trace, statistics), concurrency::{parallel_map, join_all, parallel_reduce}, spawn_batch; Pipeline::process_batch / execute_single /
-//! execute_two_stage (error identities, statistics), execute_stream (join loop), BatchCollector (also against the real clock).
+//! execute_two_stage (error identities, statistics), execute_stream (join loop), BatchCollector (also against the real clock);
+//! the yielding loops of fiber_yield.rs, FiberIoUtils::batch_process and the `buffered` window of concurrent_with_yield /
+//! process_files_parallel, AsyncMemoryBlobStore histories with put_batch / get_batch (c18_yield.rs).
 //! S-only cells (direct oracle): the running executor on tokio runtimes, one queue under OS threads, BatchCollector with its
-//! background checker on two threads, fiber_yield / fiber_aio helpers, AsyncMemoryBlobStore batches.
+//! background checker on two threads.
 use crate::util::*;
 use serde_json::{json, Value};
 use std::future::Future;
@@ -40,7 +42,7 @@ Definition ok (c : case_t) : bool :=
 }
 
 /// number of Coq case kinds (see coq/C18/ModelCases.v)
-const NK: usize = 20;
+const NK: usize = 25;
 
 struct Ctx {
     sum: Summary,
@@ -1340,7 +1342,8 @@ fn helper_case(cx: &mut Ctx, which: u64, rt: usize, limit: usize, xs: &[i64]) {
                 "YieldingIterator", "FiberIoUtils::batch_process", "FiberIoUtils::process_files_parallel", "AsyncMemoryBlobStore::put_batch/get_batch"][which as usize];
     let case = json!({"cell": "helper", "kind": 14, "which": which, "rt": rt, "limit": limit, "ops": xs});
     cx.sum.eval(cell, &format!("hp {} {} {} {:?}", which, rt, limit, xs), xs.len() >= 2);
-    cx.sum.cell_status(cell, "S-only");
+    // all M+S since coq/C18/ModelYield.v / ModelStore.v (the Coq cases come from c18_yield.rs; this cell is their timing-based oracle)
+    cx.sum.cell_status(cell, "M+S");
     let xv = xs.to_vec();
     let n = xs.len();
     let r = guarded(|| with_rt(rt, async move {
@@ -1404,6 +1407,8 @@ fn helper_case(cx: &mut Ctx, which: u64, rt: usize, limit: usize, xs: &[i64]) {
 
 #[path = "c18_wide.rs"]
 mod wide;
+#[path = "c18_yield.rs"]
+mod ym;
 
 // ---------------------------------------------------------------------------------------------
 // replay
@@ -1457,6 +1462,11 @@ fn run_one(cx: &mut Ctx, c: &Value) {
             collector_clock_case(cx, u(&c["maxb"], 2).max(1) as usize, &ops, true)
         }
         "collector_checker" => collector_checker_case(cx, u(&c["maxb"], 2).max(1) as usize, ops.len(), u(&c["pause_every"], 3) as usize, u(&c["timeout_ms"], 2)),
+        "yieldtrace" => ym::yield_trace_case(cx, match u(&c["which"], 1) { w @ (1 | 2 | 3 | 4 | 7 | 8 | 9 | 10 | 11) => w, _ => 1 }, u(&c["limit"], 1) as usize, &ops, true),
+        "lifehist" => ym::life_hist_case(cx, u(&c["nw"], 1).clamp(1, 8) as usize, u(&c["cap"], 2) as usize, &ops, true),
+        "fyhist" => ym::fy_hist_case(cx, u(&c["obj"], 0).min(1), u(&c["param"], 1) as usize, &ops, true),
+        "storehist" => ym::store_case(cx, u(&c["preset"], 0).min(2), &ops, true),
+        "buffered" => ym::buffered_case(cx, if u(&c["which"], 0) == 0 { 0 } else { 5 }, u(&c["limit"], 1) as usize, &ops, &ints(&c["gates"]), true),
         "helper" => helper_case(cx, u(&c["which"], 0).min(6), u(&c["rt"], 0) as usize, u(&c["limit"], 1) as usize, &ops),
         _ => {}
     }
@@ -1498,6 +1508,11 @@ pub fn run(args: &Args) {
             b[13] = 100;
             b[15] = if args.thorough { 200 } else { 24 };
             b[18] = if args.thorough { 200 } else { 24 }; // concurrency::parallel_reduce
+            b[19] = if args.thorough { 900 } else { 70 }; // yielding loops driven by hand
+            b[20] = if args.thorough { 600 } else { 60 }; // buffered(max_concurrent) over gated operations
+            b[21] = if args.thorough { 300 } else { 50 }; // AsyncMemoryBlobStore histories
+            b[22] = if args.thorough { 400 } else { 60 }; // executor histories with shutdown (hook)
+            b[23] = if args.thorough { 200 } else { 30 }; // FiberYield / YieldPoint histories
             b
         },
         used: [0; NK],
@@ -1867,6 +1882,8 @@ pub fn run(args: &Args) {
             }
         }
     }
+    // 6b. the same helpers against coq/C18/ModelYield.v: loops driven by hand, buffered windows over gated operations
+    ym::generate(&mut cx);
     // 7. oracle breadth (c18_wide.rs): the library's own task type, lifecycles, reused pools / pipelines / stores, presets and
     // builders, further element types, thresholds and big inputs
     wide::generate(&mut cx);
